@@ -22,10 +22,11 @@ type c13Round struct {
 }
 
 type c13Scenario struct {
-	Client    ClientOpts `json:"client"`
-	Rounds    []c13Round `json:"rounds"`
-	LatencyNs int64      `json:"latency_ns"`
-	Seg       int        `json:"segmentation"`
+	Client      ClientOpts `json:"client"`
+	Rounds      []c13Round `json:"rounds"`
+	LatencyNs   int64      `json:"latency_ns"`
+	Seg         int        `json:"segmentation"`
+	StopEarlyMs int        `json:"stop_early_ms,omitempty"` // >0: Stop is called this long after the last round's fault, whatever the client is doing then
 }
 
 func init() {
@@ -70,6 +71,9 @@ func runC13(e *Engine, g G, o RunOpt) RunInfo {
 		}
 		rd.ResumeOK = g.Bool("resumeok")
 		sc.Rounds = append(sc.Rounds, rd)
+	}
+	if g.Pct("stop-early", 20) {
+		sc.StopEarlyMs = []int{0, 0, 0, 1, 7, 20, 45, 170, 1300, 16000}[g.N("stop-early-ms", 10)] + 1
 	}
 	sc.Seg, sc.LatencyNs = netModes(g, e)
 	if sc.LatencyNs > int64(10*time.Millisecond) {
@@ -134,6 +138,7 @@ func runC13(e *Engine, g G, o RunOpt) RunInfo {
 	reestablished := 0
 	reachedPermanent := false
 	stopped := false
+	stopEarly := false
 	var sm *xmpp.StreamManager
 
 	established := func() []*SrvConn {
@@ -243,6 +248,18 @@ func runC13(e *Engine, g G, o RunOpt) RunInfo {
 				cur.Close()
 				e.Fault("stream.error")
 			}
+			if sc.StopEarlyMs > 0 && ri == len(sc.Rounds)-1 {
+				// the application gives up while the manager is busy reconnecting
+				if sc.StopEarlyMs == 1 {
+					// ... at the very moment the server sees the new session come up
+					e.WaitUntilFor("stop-at-reestablishment", 30*time.Minute, func() bool { return len(established()) > nEst })
+				} else {
+					e.Sleep(time.Duration(sc.StopEarlyMs)*time.Millisecond + 13*time.Microsecond)
+				}
+				e.Probe("c13.stop_during_reconnection")
+				stopEarly = true
+				break
+			}
 			perm := rd.Attempts[len(rd.Attempts)-1] == "permanent-auth"
 			budget := time.Duration(len(rd.Attempts)+1)*(180*time.Second+3*time.Duration(sc.Client.ConnectTimeout)*time.Second) + 60*time.Second
 			if perm {
@@ -285,7 +302,9 @@ func runC13(e *Engine, g G, o RunOpt) RunInfo {
 			probe(cur, fmt.Sprintf("round %d (%s, attempts %v)", ri, rd.Fault, rd.Attempts))
 		}
 		// let any stray retry loop show itself
-		e.Sleep(10 * time.Minute)
+		if !stopEarly {
+			e.Sleep(10 * time.Minute)
+		}
 		e.Call("StreamManager.Stop", func() error { sm.Stop(); return nil })
 		stopped = true
 		e.WaitUntilFor("run-returns", 2*time.Minute, func() bool { return runReturned })
@@ -306,7 +325,7 @@ func runC13(e *Engine, g G, o RunOpt) RunInfo {
 	est := established()
 	// exactly one new session per termination
 	want := 1 + reestablished
-	if len(est) != want && len(e.Violations) == 0 {
+	if len(est) != want && len(e.Violations) == 0 && !stopEarly {
 		e.Violate("C13", "sessions-per-loss="+cmp3(len(est), want), "%d sessions were established for %d terminations (+ the first one)", len(est), reestablished)
 	}
 	// never two established connections at once: session i must be over before session i+1 is established
@@ -317,7 +336,7 @@ func runC13(e *Engine, g G, o RunOpt) RunInfo {
 			e.Violate("C13", "two-sessions-at-once", "connection #%d was established while #%d was still alive", est[i].Idx, prev.Idx)
 		}
 	}
-	if postConnects != len(est) && len(e.Violations) == 0 {
+	if postConnects != len(est) && len(e.Violations) == 0 && !stopEarly {
 		e.Violate("C13", "postconnect-count="+cmp3(postConnects, len(est)), "PostConnect ran %d times for %d established sessions", postConnects, len(est))
 	}
 	if stopped && !runReturned {
